@@ -76,6 +76,12 @@ CHECKS["C12"] = dict(
     text="Every request of the matrix (4 identity keys: alice's, bobby's, alice's replacement, an unregistered one; senders alice/bobby/unknown; recipients; addressed CA with and without children; list, issue, issue with a limit in the sibling's space, revoke own key, revoke the sibling's key; publication list/publish/update/withdraw inside and outside the own base URI) in states fresh / issued / alice's identity replaced / parent's identity rolled: answered only when signed by the key registered for the claimed sender (the replaced key is refused, the new one accepted); refused => the complete canonical state and the published content are unchanged; answered => reply validates under the server side's current identity key, is addressed to the sender, lists/issues only within the sender's entitlement, never changes the sibling's certificate or objects outside the sender's base URI. Every single-bit corruption of valid list/issue/revoke/publication messages is refused without stored-state change, or decodes to the identical content.",
     note="CMS signing time is 'now' on the frozen clock (expiry not varied). A wrong recipient handle in an otherwise valid message is not a refusal condition of the property. Properly signed requests refused on semantic grounds may leave a failure record in the status store (C19 demands it). Replay: kcheck C12 --replay <file>.")
 
+CHECKS["C16"] = dict(
+    engine="E4", category="model_checking", design="4/C16",
+    technique="bounded-exhaustive structured mutation of valid inputs (every truncation, single-byte substitution/deletion/duplication, every XML attribute/element and JSON leaf x hostile-value menu, every path parameter x segment menu, every other route's body cross-wired, all byte strings up to length 1/2) sent to the real entry points: CaManager::rfc6492 / RepositoryManager::rfc8181 (raw CMS and validly signed hostile content) and the daemon's own HTTP service (authentication, path parsing, body limits, JSON decoding, dispatch, thread pool) over an in-memory connection",
+    text="Every listed mutation of 5 valid provisioning/publication CMS messages, of their XML content re-signed with the registered identity key, of the valid JSON body of each of the body-reading API routes, and of every path parameter of all routes of the route table: no panic on any thread (panic hook), no process death, no hang; an error outcome (refusal / 4xx / 5xx) leaves the stored state unchanged apart from the audit record of a rejected command; afterwards the daemon still answers, every entity reloads and (protocol part) the repository is still relying-party valid.",
+    note="'Every byte string' is not enumerable: the input space is the stated mutation neighbourhood of valid messages plus all strings of length <=1 (quick) / <=2 (thorough). The harness profile mirrors the release profile (overflow checks off, debug assertions off) but unwinds instead of aborting so that the sweep can continue after a panic. TLS/socket layers are not exercised. Two panics inside the rpki dependency are recorded as known findings (not fixable in this repository).")
+
 CHECKS["C10"] = dict(
     engine="E1", category="model_checking", design="4/C10",
     technique="explicit-state exploration (fork-checkpointed DFS) of publication-delta sequences from several publishers on the real RepositoryManager against a per-publisher reference map",
